@@ -102,6 +102,8 @@ func rulesC10(c *Ctx) {
 	c12AnyOf(c)
 	c12Shared(c)
 	c12Unwrap(c)
+	// "… to decide whether the execution succeeded": the verdict the completion listeners are given
+	c16Executor(c)
 	c.Rule("fresh-executor")
 	c01Self(c)
 	buildCopiesConfig(c)
